@@ -1,11 +1,11 @@
-\* C03 thorough (model checking only): 2 threads; instances new(), shared(), shared(); keys a,b with property maps {a:1},{a:2,b:1},{b:2};
+\* C03 thorough (model checking only): 2 threads; instances new(), shared(), shared() (storages 1,0,0); property maps {a:1},{a:2,b:1};
 \* all kinds and forms; <= 3 frames, 1 task, nesting <= 2, panic unwinding.
 SPECIFICATION Spec
 CONSTANTS
     NThreads = 2
     StoreOf <- MC_Store3
     NKeys = 2
-    PropChoices <- MC_Props3
+    PropChoices <- MC_Props2
     Kinds <- MC_AllKinds
     Forms <- MC_AllForms
     MaxFrames = 3
